@@ -148,9 +148,9 @@ end Cx.Fast.Spec
 namespace Cx.Fast
 open Cx Cx.Fast.Spec
 
-/-- the fragment: `cls+` or `cls+?` over a non-empty class of ASCII ranges -/
+/-- the fragment: GREEDY `cls+` over a non-empty class of ASCII ranges -/
 def IsCharClassPlus (re : Re) (ranges : List (Nat × Nat)) : Prop :=
-  re.op = .plus ∧ (∃ c, re.sub = [c] ∧ c.op = .charClass ∧ pairs c.rune = ranges) ∧
+  re.op = .plus ∧ re.nonGreedy = false ∧ (∃ c, re.sub = [c] ∧ c.op = .charClass ∧ pairs c.rune = ranges) ∧
     ranges ≠ [] ∧ ∀ r ∈ ranges, r.1 ≤ 127 ∧ r.2 ≤ 127
 
 /-- a (possibly quantified) character class: `cls`, `cls+`, `cls*`, `cls?`, `cls{n,m}` (greedy or lazy) -/
@@ -162,33 +162,42 @@ def QuantClass (x : Re) : Prop :=
 def CompositeFrag (re : Re) : Prop :=
   re.op = .concat ∧ 2 ≤ re.sub.length ∧ ∀ x ∈ re.sub, QuantClass x
 
-/-- the three ways a pattern accepted by `IsCompositeCharClassPattern` can leave the exactly-handled fragment -/
+/-- the three ways a pattern could leave the exactly-handled fragment; `IsCompositeCharClassPattern` now excludes all of
+    them (`isCompositeCharClassPattern_greedy` / `_noZeroMax` / `_ascii` in Cx.Proofs.Fast) -/
 def AllGreedy (re : Re) : Prop := ∀ x ∈ re.sub, x.nonGreedy = false
 def NoZeroMax (re : Re) : Prop := ∀ x ∈ re.sub, x.op = .repeat_ → x.max ≠ 0
 /-- class runes of a part -/
 def classRunes (x : Re) : List Nat :=
   if x.op = .charClass then x.rune else match x.sub with | [c] => c.rune | _ => []
 def AsciiOnly (re : Re) : Prop := ∀ x ∈ re.sub, ∀ r ∈ classRunes x, r ≤ 127
+/-- PARSER INVARIANT (not a restriction of the fragment): `syntax.Parse` returns every class as sorted, merged ranges
+    (`cleanClass`), so `Rune` is ascending and its last element is the greatest member.  The Go predicates test only that
+    last element (`cc.Rune[len(cc.Rune)-1] > 0x7F`); on a hand-built AST with unsorted `Rune` the test says nothing. -/
+def ClassSorted (re : Re) : Prop := ∀ x ∈ re.sub, (classRunes x).Pairwise (· ≤ ·)
 
 instance (re : Re) : Decidable (AllGreedy re) := by unfold AllGreedy; exact inferInstance
 instance (re : Re) : Decidable (NoZeroMax re) := by unfold NoZeroMax; exact inferInstance
 instance (re : Re) : Decidable (AsciiOnly re) := by unfold AsciiOnly; exact inferInstance
+instance (re : Re) : Decidable (ClassSorted re) := by unfold ClassSorted; exact inferInstance
 
 /-- the bytes `extractLiteral` produces for a literal node -/
-def litBytes (x : Re) : List Nat := x.rune.flatMap fun r => if r > 255 then encodeRune r else [r]
+def litBytes (x : Re) : List Nat := x.rune.flatMap fun r => if r > 0x7F then encodeRune r else [r]
 
 /-- the fragment `DetectAnchoredLiteral` accepts, together with what each `info` field is:
-    `anchor lit* (.*|.+) [cls+] lit anchor` -/
+    `anchor lit* (.*|.+) [cls+] lit anchor`, every literal CASE-SENSITIVE (its bytes are the UTF-8 encoding of its runes,
+    `litBytes`), the class of the bridge ASCII-ONLY in the sense the Go code tests it (its last rune is `≤ 0x7F`; for a
+    sorted `Rune`, as the parser produces, that is every member — `anchoredFrag_bridge_ascii`). -/
 def AnchoredFrag (re : Re) (info : AnchoredLiteralInfo) : Prop :=
   re.op = .concat ∧
   ∃ first lits w bridge sfxRe last,
     re.sub = first :: (lits ++ w :: bridge ++ [sfxRe, last]) ∧
     isStartAnchor first = true ∧ isEndAnchor last = true ∧
-    (∀ x ∈ lits, x.op = .literal) ∧ isGreedyWildcard w = true ∧ sfxRe.op = .literal ∧
+    (∀ x ∈ lits, x.op = .literal ∧ x.foldCase = false) ∧ isGreedyWildcard w = true ∧
+    (sfxRe.op = .literal ∧ sfxRe.foldCase = false) ∧
     info.pfx = (lits.flatMap litBytes).toArray ∧ info.sfx = (litBytes sfxRe).toArray ∧
-    info.wildcardMin = getWildcardMin w ∧
+    info.wildcardMin = getWildcardMin w ∧ info.wildcardMatchesNewline = wildcardIsDotNL w ∧
     ((bridge = [] ∧ info.charClassTable = none ∧ info.charClassMin = 0) ∨
-     (∃ b cc, bridge = [b] ∧ b.op = .plus ∧ b.sub = [cc] ∧ cc.op = .charClass ∧
+     (∃ b cc, bridge = [b] ∧ b.op = .plus ∧ b.sub = [cc] ∧ cc.op = .charClass ∧ lastRuneAbove7F cc.rune = false ∧
         info.charClassTable = some (tableOfRangesClamped (pairs cc.rune)) ∧ info.charClassMin = 1)) ∧
     info.minLength = info.pfx.size + info.wildcardMin + info.charClassMin + info.sfx.size
 
